@@ -262,12 +262,12 @@ func falsySetRuleSSA(r *Run, rule string) {
 		return
 	}
 	fn := w.SSAFunc(f)
-	if fn == nil || len(fn.Params) != 2 {
+	if fn == nil || len(fn.Params) != opBase(fn)+1 {
 		r.Lost(rule, "SSA form of the truthiness predicate")
 		return
 	}
 	paths, ok := walkPaths(fn, nil, func(caller, callee *ssa.Function) bool {
-		return w.isCompilerMethod(callee) && !w.coreModel().canonicalSet()[callee]
+		return w.isEvalFunc(callee) && !w.coreModel().canonicalSet()[callee]
 	})
 	if !ok {
 		r.Lost(rule, "paths of the truthiness predicate")
@@ -280,7 +280,7 @@ func falsySetRuleSSA(r *Run, rule string) {
 		verdict, why := true, ""
 		var at token.Pos = fn.Pos()
 		for _, p := range paths {
-			ce := &classEval{p: p, param: fn.Params[1], c: c}
+			ce := &classEval{p: p, param: fn.Params[len(fn.Params)-1], c: c}
 			consistent, known := true, true
 			for _, d := range p.decisions {
 				b, ok := ce.boolOf(d.cond, 0)
